@@ -14,7 +14,18 @@ extern "C" const char *__asan_default_options() {
 }
 extern "C" int __sanitizer_install_malloc_and_free_hooks(void (*)(const volatile void *, size_t), void (*)(const volatile void *));
 static volatile int g_fill = 0xA5;
-static void malloc_hook(const volatile void *p, size_t n) { if (g_fill >= 0 && n <= (8u << 20)) memset((void *)p, g_fill, n); }
+// C09: with g_fill_thr set, memory allocated by the n-th thread created in this process is filled with g_fill ^ n, so heap bytes
+// that were never written and reach the image differ between the single-thread reference build and every other build (as they
+// do in production, where each worker allocates from its own arena)
+static volatile int g_fill_thr = 0;
+static int g_thr_next = 0;
+static __thread int g_thr_ord = -1;
+static void malloc_hook(const volatile void *p, size_t n) {
+  if (g_fill < 0 || n > (8u << 20)) return;
+  int f = g_fill;
+  if (g_fill_thr) { if (g_thr_ord < 0) g_thr_ord = __atomic_fetch_add(&g_thr_next, 1, __ATOMIC_RELAXED); f ^= (g_thr_ord & 0x7f); }
+  memset((void *)p, f, n);
+}
 static void free_hook(const volatile void *) {}
 
 // ------------------------------------------------------------------ child-side state
@@ -344,11 +355,13 @@ static void run_subcell(Ctx &c, const Cell &cell, const SubCell &sc) {
     // data dimension of C09: same input/overhead/cut, any thread count -> image identical to the 1-thread image,
     // blocks in input order, every block complete (under the OS schedule; the schedule dimension is SX driver B)
     if (k != K_BLOCKS || sc.src != "fresh") return;
+    g_thr_ord = 0; g_thr_next = 1; g_fill_thr = 1;   // main thread = 0, the reference build's worker = 1
     Params p1 = p; p1.c = 1;
     str ref;
     { str key = fmt("blk1|") + p1.s(); auto it = CA.img.find(key);
       if (it != CA.img.end()) ref = it->second;
       else { StringDictionary *d1 = x_build(c, k, p1, cell.S); if (!d1) return; bool ok = x_save(c, d1, ref); x_delete(c, d1); if (!ok) return; cache_put_img(key, ref); } }
+    if (g_thr_next < 2) g_thr_next = 2;   // (reference taken from the cache) every worker of the build under test differs from the reference's
     StringDictionary *d = x_build(c, k, p, cell.S); if (!d) return;
     c.objects++;
     StringDictionaryHASHRPDACBlocks *b = (StringDictionaryHASHRPDACBlocks *)d;
